@@ -158,6 +158,14 @@ theorem encode_decode_encode (σ : Schema) (ann : Ann) (t : Val)
   · rw [h2]; simp only [canon, canon_annotate]
   · rw [reencode_root σ ann t hs, h1]
 
+/-- The full statement of byte-identical re-encoding, without the hypothesis on `Pos()`/`End()`.
+    It is FALSE (`encode_decode_encode_statement_false`): a `Pos()`/`End()` that looks at a recovered
+    position may give another answer once the position is cleared. -/
+def encode_decode_encode_statement : Prop :=
+  ∀ (σ : Schema) (ann : Ann) (t : Val), wf σ (.iface "Node") (.iface (annotate ann t)) = true →
+    ∃ j d, encodeRoot σ (annotate ann t) = .val j ∧ decodeRoot σ j = .ok (.iface d) ∧
+      encodeRoot σ (annotate ann d) = .val j
+
 /-! ### Part C — the real schema -/
 
 /-- a literal at byte offset 278534 of an input whose line and column counters both overflowed -/
@@ -185,6 +193,41 @@ theorem decode_encode_statement_false : ¬ decode_encode_statement := by
   obtain ⟨j, he, hd⟩ := hst real litOverflowed h1
   rw [he] at h3
   simp only [hd, beqVal_refl, Bool.true_or] at h3
+  contradiction
+
+/-- a `Pos()`/`End()` in the style of nodes.go: the first position field, or a fallback when it is unset -/
+def annFallback : Ann := fun _ fs =>
+  match fs with
+  | (_, .pos p) :: _ => if p = Pos.zero then some (⟨1, 16385⟩, ⟨1, 16385⟩) else some (p, p)
+  | _ => none
+
+/-- a literal whose positions are recovered ones -/
+def litRecovered : Val :=
+  .ptr (.struct "Lit" none
+    [("ValuePos", .pos Pos.recovered), ("ValueEnd", .pos Pos.recovered), ("Value", .str [97])])
+
+/-- The known finding C15-reencode-recovered-posend on the model: the tree is JsonWF, yet the
+    re-annotated decoded tree encodes differently (a "Pos"/"End" appears). -/
+theorem reencode_recovered_differs :
+    wf real (.iface "Node") (.iface (annotate annFallback litRecovered)) = true ∧
+      beqEnc (encodeRoot real (annotate annFallback (canon litRecovered)))
+        (encodeRoot real (annotate annFallback litRecovered)) = false := by
+  decide +kernel
+
+theorem encode_decode_encode_statement_false : ¬ encode_decode_encode_statement := by
+  intro hst
+  obtain ⟨hw, hne⟩ := reencode_recovered_differs
+  obtain ⟨j, d, h1, h2, h3⟩ := hst real annFallback litRecovered hw
+  obtain ⟨j', h1', h2'⟩ := round_root real (annotate annFallback litRecovered) hw
+  rw [h1] at h1'
+  injection h1' with hj
+  subst hj
+  rw [h2] at h2'
+  injection h2' with hd
+  simp only [canon, canon_annotate] at hd
+  injection hd with hd
+  subst hd
+  rw [h3, h1, beqEnc_refl] at hne
   contradiction
 
 /-- A string that is not valid UTF-8 does not survive `encoding/json` (outside the property: the
